@@ -15,6 +15,7 @@
 #include <string.h>
 #include <unistd.h>
 #include <pthread.h>
+#include <signal.h>
 #include <stdatomic.h>
 #include <sys/syscall.h>
 typedef void (*cb_t)(const volatile void *addr, unsigned size, int op, uint64_t o, uint64_t n, const char *func, int line);
@@ -55,11 +56,16 @@ static void *retargeter(void *a){ (void)a; int next=1; is_client=1;
     struct item s; memset(&s,0,sizeof s); s.which=2; dispatch_sync_f(q,&s,work);       // q is known to have moved before it is flipped again
     atomic_fetch_add(&flips,1); next^=1; usleep((useconds_t)(100+rnd()%300)); }
   atomic_fetch_add(&thr_done,1); return 0; }
+// signals without SA_RESTART to the submitting threads: a thread parked in a synchronous submission is interrupted in its wait and
+// has to go back to it - being woken by a signal is not being handed the queue
+static pthread_t th[16]; static int nthr_g; static atomic_long pings; static void on_usr1(int s){ (void)s; }
+static void *pinger(void *a){ (void)a; int k=0; while(!atomic_load(&stop) && !viol){ pthread_kill(th[k++%nthr_g],SIGUSR1); atomic_fetch_add(&pings,1); usleep(150); } return 0; }
 int main(int argc,char**argv){ seed=argc>1?strtoull(argv[1],0,0):1; int nthr=argc>2?atoi(argv[2]):6; int ms=argc>3?atoi(argv[3]):1500; if(nthr>16) nthr=16;
   t[0]=dispatch_queue_create("rt.t0",NULL); t[1]=dispatch_queue_create("rt.t1",NULL); q=dispatch_queue_create("rt.q",NULL);
   dispatch_queue_set_specific(t[0],&key,(void*)1,NULL); dispatch_queue_set_specific(t[1],&key,(void*)2,NULL); dispatch_set_target_queue(q,t[0]);
   QS=_dispatch_verif_queue_state_addr(q); _dispatch_verif_atomic_cb=cb;
-  pthread_t th[16], rt; for(long i=0;i<nthr;i++) pthread_create(&th[i],0,submitter,(void*)i); pthread_create(&rt,0,retargeter,0);
+  struct sigaction sa; memset(&sa,0,sizeof sa); sa.sa_handler=on_usr1; sigaction(SIGUSR1,&sa,0); nthr_g=nthr;
+  pthread_t rt, pg; for(long i=0;i<nthr;i++) pthread_create(&th[i],0,submitter,(void*)i); pthread_create(&rt,0,retargeter,0); pthread_create(&pg,0,pinger,0);
   long last=-1; int idle=0;
   for(int e=0; e<ms/50 && !viol; e++){ usleep(50000); long p=atomic_load(&progress); if(p==last){ if(++idle>=100) break; } else { idle=0; last=p; } }
   atomic_store(&stop,1);
@@ -68,7 +74,7 @@ int main(int argc,char**argv){ seed=argc>1?strtoull(argv[1],0,0):1; int nthr=arg
   _dispatch_verif_atomic_cb=0;
   if(viol){ printf("ORACLE VIOL seed=%llu %s\n",(unsigned long long)seed,vmsg); fflush(stdout); _exit(1); }
   // all threads return once stop is set and nothing hangs
-  for(int i=0;i<nthr;i++) pthread_join(th[i],0); pthread_join(rt,0);
+  pthread_join(pg,0); for(int i=0;i<nthr;i++) pthread_join(th[i],0); pthread_join(rt,0);
   for(int w=0; w<200 && atomic_load(&async_out); w++) usleep(10000);
   if(atomic_load(&async_out)){ printf("ORACLE VIOL seed=%llu asynchronous items never ran: outstanding %ld\n",(unsigned long long)seed,atomic_load(&async_out)); fflush(stdout); _exit(1); }
-  printf("ORACLE ok items=%ld target_changes=%ld holds=%ld\n",atomic_load(&n_items),atomic_load(&flips),atomic_load(&holds)); fflush(stdout); _exit(0); }
+  printf("ORACLE ok items=%ld target_changes=%ld holds=%ld signals=%ld\n",atomic_load(&n_items),atomic_load(&flips),atomic_load(&holds),atomic_load(&pings)); fflush(stdout); _exit(0); }
